@@ -249,13 +249,13 @@ func (d *vRHDon) sync(t *testing.T) {
 	for i, h := range d.homes {
 		c0[i] = h.fetches.Load()
 	}
-	deadline := time.Now().Add(10 * time.Second)
+	// the events: every poller's fetch counter has advanced by two. The pollers poll every 2 ms; "does not poll" is
+	// decided by a watch (30 s that stretch when the machine is starved) and only after a second, longer one has
+	// expired as well - never by the wall clock alone
 	for i, h := range d.homes {
-		for h.fetches.Load() < c0[i]+2 {
-			if time.Now().After(deadline) {
-				t.Fatalf("verif: home-chain poller %d did not poll", i)
-			}
-			time.Sleep(200 * time.Microsecond)
+		polled := func() bool { return h.fetches.Load() >= c0[i]+2 }
+		if !vAwait(30*time.Second, polled) && !vAwait(60*time.Second, polled) {
+			t.Fatalf("verif: home-chain poller %d did not poll", i)
 		}
 	}
 }
